@@ -29,6 +29,6 @@ let () =
       | [ "X"; h ] -> print_endline (string_of_z (mmhsum (bytes_of h)))
       | "O" :: lines -> print_endline (string_of_z (order_independent_hash (List.map bytes_of lines)))
       | [ "C" ] ->
-        print_endline (Printf.sprintf "m=%s r=%s shard_seed=%s tail=%s" (string_of_z murmur_m) (string_of_z murmur_r) (string_of_z shard_seed)
-                         (String.concat "," (List.map (fun ((l, i), s) -> Printf.sprintf "%s:%d:%s" (string_of_z l) (int_of_nat i) (string_of_z s)) murmur_tail_cases)))
+        print_endline (Printf.sprintf "shard_seed=%s native_is_64a=%d default_seed_64a=%s" (string_of_z shard_seed)
+                         (if int_of_z native_64b_pointer_size <> 8 then 1 else 0) (string_of_z default_seed_64a))
       | _ -> print_endline "?")
